@@ -38,8 +38,9 @@ def main():
     ap.add_argument("--props", default=",".join(ALL))
     ap.add_argument("--only", default="")
     ap.add_argument("-v", action="store_true")
+    ap.add_argument("--dir", default="/verif/neutral")
     a = ap.parse_args()
-    patches = sorted(glob.glob("/verif/neutral/*.diff"))
+    patches = sorted(glob.glob(a.dir + "/*.diff"))
     if a.only:
         patches = [p for p in patches if os.path.basename(p)[:-5] in a.only.split(",")]
     props = a.props.split(",")
